@@ -283,6 +283,28 @@ CLAIMED = {
          "A call is cut off after 20 s (reported as Timeout). Arbitrary byte strings are explored, not enumerated (section 7).",
     technique="TLA+ pipeline state machine with TLC-enumerated fault sequences replayed through reader/ISD/filter/writers; recorded runs validated as behaviours of the machine",
     design_ref="6/C18"),
+  "C08": dict(
+    level="model_checking",
+    text="spec/Cea608Decoder.tla is a reference CEA-608 decoder written from CTA-608: mode, roll-up depth and base row, "
+         "displayed / non-displayed memories (partial functions row,col -> cell), cursor, pen, last control code, channel "
+         "and frame clock; one action per received word class (Null, Chars, Pac, MidRow, RCL, RDC, RU, CR, EOC, EDM, ENM, BS, "
+         "TO, DER, Special, Extended, DupControl, OtherChannel, Unsupported, NewLine) dispatched through spec/Cea608Word.tla; "
+         "TLC checks eight invariants (roll-up window, cursor range, pop-on hidden until EOC, channel filter, one frame per "
+         "word...) on seven exhaustive protocol models generated by a sub-relation of the decoder, every action covered. "
+         "Spec -> code: the behaviours of those models and of -simulate runs over the full alphabets are rendered as SCC "
+         "files and read by scc.reader.to_model; code -> spec: seeded random protocol streams (all rows/indents, tab "
+         "offsets, special/extended characters, attributes, ENM/EDM, channel-2 words, padding, parities, DF/NDF time "
+         "codes, doubled and single control codes, text_align). spec/Trace_Cea608.tla walks the decoder one action per "
+         "recorded word and compares the screen at every frame (pop-on and paint-on: equality; roll-up: row count, order, "
+         "prefix relation and equality at quiescent frames) and the timing clauses (exact frame multiples, not before the "
+         "line's time code, inside the transmission window).",
+    note="Trusted: TLC; the SCC renderer; the projection of documents to per-frame screens (rows from region origin and br "
+         "count, attributes from span styles). Columns and attributes of space cells are not compared. Four known findings "
+         "(suppressed duplicate does not advance the clock - pinned by tests; single EDM ends one frame late - pinned; paint-on "
+         "shown ahead of reception - pinned; a row reused without erase - line-model limitation), each with a narrow selector "
+         "whose cause label is computed from the input only.",
+    technique="TLA+ reference CEA-608 decoder model-checked with TLC; TLC behaviours replayed as SCC files; recorded reads validated by walking the decoder in TLC",
+    design_ref="6/C08, NOTES_C08.md"),
 }
 
 NOT_YET = "check not built yet in this round; see DESIGN.md section 6 for the planned TLA+ specification"
